@@ -64,6 +64,8 @@ extern crate tracing;
 
 pub mod client;
 pub mod self_encryption;
+#[cfg(maidsafe_safe_network_verif)]
+mod verif;
 
 pub use ant_evm::get_evm_network_from_env;
 pub use ant_evm::Amount;
